@@ -9,6 +9,7 @@
 package effects
 
 import (
+	"os"
 	"fmt"
 	"go/constant"
 	"go/token"
@@ -169,6 +170,27 @@ func Run(p *load.Prog) *Analysis {
 		}
 		if !changed {
 			break
+		}
+	}
+	if dbg := os.Getenv("SVDEBUGEFF"); dbg != "" {
+		for _, f := range fns {
+			if !strings.Contains(f.String(), dbg) {
+				continue
+			}
+			s := a.Sums[f]
+			fmt.Fprintf(os.Stderr, "EFF %s\n", f)
+			for k, w := range s.Wr {
+				fmt.Fprintf(os.Stderr, "   Wr %s: %s\n", k, w.What)
+			}
+			for k, e := range s.Esc {
+				fmt.Fprintf(os.Stderr, "   Esc %s <- %v\n", k, e)
+			}
+			for i, r := range s.Ret {
+				fmt.Fprintf(os.Stderr, "   Ret %d: %v\n", i, r)
+			}
+			for _, pc := range s.ParamCalls {
+				fmt.Fprintf(os.Stderr, "   ParamCall %d args %v\n", pc.Param, pc.Args)
+			}
 		}
 	}
 	return a
